@@ -1,6 +1,6 @@
 (* Function table for the function-level correspondence check.  The ids are
    mirrored in harness/fnids.go. *)
-From OTR Require Import Go.Base Corr.Val Bytes.Wire Bytes.Msgs.
+From OTR Require Import Go.Base Gen.Consts Corr.Val Bytes.Wire Bytes.Msgs Bytes.Strconv Bytes.B64 Bytes.Frag Bytes.Text.
 Open Scope N_scope.
 
 Definition v_rest_n (o : option (bytes * N)) : val :=
@@ -82,4 +82,48 @@ Definition dispatch_bytes (fn : N) (a : list val) : val :=
   | _ => VErr 999
   end.
 
-Definition dispatch := dispatch_bytes.
+(* Receive on a v2-only plaintext conversation, restricted to v2 fragments and plain
+   text without OTR markers: what each call returns as plaintext *)
+Fixpoint run_v2_frags (c : fragctx) (msgs : list bytes) : list val :=
+  match msgs with
+  | [] => []
+  | m :: r =>
+      if is_prefix v_otrv2FragmentationPrefix m then
+        let '(c', done) := receiveFragmentV2 c m in
+        (match done with Some d => VB d | None => VNone end) :: run_v2_frags c' r
+      else VB m :: run_v2_frags fc_empty r
+  end.
+
+Definition v_tags (r : R (option (N * N))) : val :=
+  match r with
+  | Ok (Some (o, t)) => VL [VN o; VN t]
+  | Ok None => VNone
+  | Err e => VErr e
+  | Panic => VPanic
+  end.
+
+Definition dispatch_text (fn : N) (a : list val) : val :=
+  match fn with
+  | 50 => VB (b64encode (argB a 0))
+  | 51 => vopt VB (b64decode (argB a 0))
+  | 52 => match decode (argB a 0) with Ok d => VB d | Err _ => VNone | Panic => VPanic end
+  | 53 => VB (encode (argB a 0))
+  | 60 => VB (fragPrefix (argN a 0 =? 3) (argN a 1) (argN a 2) (argN a 3) (argN a 4))
+  | 61 => VL (map VB (fragment (argN a 0 =? 3) (argN a 1) (argN a 2) (argB a 3) (argN a 4)))
+  | 62 => vopt (fun '(d, ix, l) => VL [VB d; VN ix; VN l]) (parseFragment (argB a 0))
+  | 63 => vopt VN (bytesToUint16 (argB a 0))
+  | 64 => vopt VN (parseItag (argB a 0))
+  | 65 => VL (run_v2_frags fc_empty (map valB (argL a 0)))
+  | 68 => v_tags (ExtractInstanceTags (argB a 0))
+  | 70 => VN (guessMessageType (argB a 0))
+  | 71 => VL (map VN (parseOTRQueryMessage (argB a 0)))
+  | 72 => VN (extractVersionsFromQueryMessage (argN a 0) (argB a 1))
+  | 73 => VB (QueryMessage (argN a 0) (argB a 1))
+  | 74 => VB (genWhitespaceTag (argN a 0))
+  | 75 => vR (fun '(p, v) => VL [VB p; VN v]) (extractWhitespaceTag (argB a 0))
+  | 76 => VB (convertToWhitespace (argB a 0))
+  | _ => VErr 999
+  end.
+
+Definition dispatch (fn : N) (a : list val) : val :=
+  if fn <? 50 then dispatch_bytes fn a else if fn <? 100 then dispatch_text fn a else VErr 999.
